@@ -104,7 +104,7 @@ Qed.
 (* non-vacuity / the documented examples: "abc" + NUL in a block of 8 *)
 Definition abc8 : str := mkStr (Some [97; 98; 99; 0; 165; 165; 165; 165]) 3 8.
 Example inv_abc8 : inv abc8.
-Proof. unfold inv, abc8; cbn [num mem ptr buf]. rewrite W64_val. cbn. lia. Qed.
+Proof. unfold inv. rewrite W64_val. vm_compute. repeat split; try discriminate; reflexivity. Qed.
 Example bytes_ok_abc8 : UtfDefs.bytes_ok (buf abc8).
 Proof. unfold UtfDefs.bytes_ok, abc8; cbn. repeat constructor. Qed.
 Example accessors_abc8 :
